@@ -173,7 +173,7 @@ def selftest(ctx) -> None:
 
 def run(ctx) -> None:
     fixed_frames(ctx)
-    parallel(ctx, _shard, [(ctx.n(25, 300), ctx.n(120, 238))] * ctx.n(8, 16))
+    parallel(ctx, _shard, [(ctx.n(25, 150), ctx.n(120, 238))] * ctx.n(8, 16))
 
 
 def replay(ctx, case) -> None:
